@@ -49,9 +49,9 @@ quick    at most 60 files (the smallest without a block / with one block /
          of 4 bits of every field and one compensated flip per file; what is
          left of the 900 gives all 32 bits of every field to the smallest
          files (<= 10);
-thorough every file, at most 21000 flipped files: 8 seeded bits of every
+thorough every file, at most 16000 flipped files: 8 seeded bits of every
          field, 2 compensated flips per block field, the rest of the budget
-         gives all 32 bits to the smallest files (about 400 fields);
+         gives all 32 bits to the smallest files (about 200 fields);
 W25_ALL=1 in the environment: every bit of every field of every file.
 
 Use:  run(ck) from a property check, or standalone
@@ -80,7 +80,7 @@ NPROC = W.NPROC
 #         files  flipped  bits per  compensated flips per     files with
 #                files    field     block field: base / full  all 32 bits
 TIERS = {'quick': (60, 900, 4, 0, 4, 10),         # 0 -> one per file
-         'thorough': (10 ** 6, 21000, 8, 2, 4, 10 ** 6),
+         'thorough': (10 ** 6, 16000, 8, 2, 4, 10 ** 6),
          'all': (10 ** 6, 10 ** 9, 32, 32, 32, 0)}   # W25_ALL=1: ~1 h
 KEEP = ('hello-l9', 'two-blocks-l3', 'cat-hello-empty-hello',
         'cat-empty-empty-empty')
